@@ -103,18 +103,18 @@ type TAttr struct {
 }
 
 type TReq struct {
-	Kind                      string // bind search modify add del ext unbind
-	ID                        int64
-	DN, PW                    []byte
-	Scope, Deref, Size, Time  int64
-	TypesOnly                 bool
-	Filter                    *TFilter
-	Attrs                     [][]byte
-	Changes                   []TChange
-	AddAttrs                  []TAttr
-	Name                      []byte
-	Value                     *[]byte
-	Ctrls                     []TControl
+	Kind                     string // bind search modify add del ext unbind
+	ID                       int64
+	DN, PW                   []byte
+	Scope, Deref, Size, Time int64
+	TypesOnly                bool
+	Filter                   *TFilter
+	Attrs                    [][]byte
+	Changes                  []TChange
+	AddAttrs                 []TAttr
+	Name                     []byte
+	Value                    *[]byte
+	Ctrls                    []TControl
 }
 
 func (r *TReq) String() string {
